@@ -622,7 +622,9 @@ package plugin
 //@   loop#1 invariant tokens == at_loop(tokens) && !held(m.Mutex)   [C09.own]
 //@   at go#1 assert arg1 == wtag_read && arg2 != nil && pkey[arg2] == wtag_read   [C06.park]
 //@   after call binary.Read#1 bind wtag_read: Int := id
+//@   after call (*yamux.Session).AcceptStream#1 bind acc_err: Iface := ret1
 //@   ensures tokens == old(tokens)   [C09.own]
+//@   ensures acc_err != nil   [C09.run]
 
 //@ func (*MuxBroker).timeoutWait
 //@   nopanic [C09.total] [C20.nopanic]
